@@ -82,8 +82,8 @@ pub fn uci_accept_exact<S: Src, const SIDE: u8, const PART: u8>(s: &mut S) {
         vnote!("fen={} uci={:?} read={:?} legal reader={} applied={}", b.as_fen(), u, read, legal, made.is_ok());
         vassert!("a UCI value is applied exactly when the legal reader accepts it", made.is_ok() == legal);
         vassert!("the null move is never accepted as a move to play", !(is_null && made.is_ok()));
-        vcover!("applied", made.is_ok());
-        vcover!("null value", is_null);
+        vcover!("applied (make part)", made.is_ok());
+        vcover!("null value (make part)", is_null);
         return;
     }
     // a symbolic candidate with that source, destination and promotion: any non-null kind
@@ -103,9 +103,9 @@ pub fn uci_accept_exact<S: Src, const SIDE: u8, const PART: u8>(s: &mut S) {
             vassert!("semilegal reader accepts only a semilegal move with that source, destination and promotion",
                 !is_null && semilegal_ref(&p, m) && m.src == src && m.dst == dst && (if pr == 0 { m.kind < K_PN } else { m.kind == promo_kind(pr) }));
         }
-        vcover!("accepted promotion", semi && pr != 0);
-        vcover!("promotion letter on a non-promoting move", !semi && pr != 0 && p.cells[src as usize] != 0);
-        vcover!("null value", is_null);
+        vcover!("accepted promotion (semi part)", semi && pr != 0);
+        vcover!("promotion letter on a non-promoting move (semi part)", !semi && pr != 0 && p.cells[src as usize] != 0);
+        vcover!("null value (semi part)", is_null);
     } else {
         let legal = match read {
             Ok(mv) => mv.validate(&b).is_ok(),
@@ -117,8 +117,8 @@ pub fn uci_accept_exact<S: Src, const SIDE: u8, const PART: u8>(s: &mut S) {
         if let (true, Ok(mv)) = (legal, read) {
             vassert!("legal reader accepts only a legal move", legal_ref(&p, m_of(mv)));
         }
-        vcover!("legal promotion", legal && pr != 0);
-        vcover!("semilegal candidate refused as illegal", cand_semi && !legal);
+        vcover!("legal promotion (legal part)", legal && pr != 0);
+        vcover!("semilegal candidate refused as illegal (legal part)", cand_semi && !legal);
     }
 }
 
